@@ -15,13 +15,14 @@ import (
 
 	"github.com/coreruleset/crs-toolchain/v2/context"
 	"github.com/coreruleset/crs-toolchain/v2/regex"
+	"github.com/coreruleset/crs-toolchain/v2/utils"
 )
 
 var logger = log.With().Str("component", "update-copyright").Logger()
 
 // UpdateCopyright updates the copyright portion of the rules files to the provided year and version.
 func UpdateCopyright(ctxt *context.Context, version string, year string) {
-	err := filepath.WalkDir(ctxt.RootDir(), func(path string, d fs.DirEntry, err error) error {
+	err := filepath.WalkDir(utils.WalkRoot(ctxt.RootDir()), func(path string, d fs.DirEntry, err error) error {
 		if err != nil {
 			// abort
 			return err
